@@ -2065,6 +2065,23 @@ func (x *Exec) builtin(st *State, fr *Frame, ce *ast.CallExpr, name string, k fu
 		k(st, nil)
 	case "panic":
 		x.doPanic(st, fr, ce)
+	case "min", "max":
+		// integer min/max of any arity
+		r := x.expr(st, fr, ce.Args[0])
+		if r.Sort != "Int" {
+			x.unsupported(ce, "builtin %s on %s", name, r.Sort)
+			return
+		}
+		op := "<="
+		if name == "max" {
+			op = ">="
+		}
+		for _, a := range ce.Args[1:] {
+			v := x.expr(st, fr, a)
+			r = tIte(tApp("Bool", op, r, v), r, v)
+		}
+		r.Ty = x.info.TypeOf(ce)
+		k(st, []Term{r})
 	default:
 		x.unsupported(ce, "builtin %s", name)
 	}
